@@ -1062,13 +1062,31 @@ func (c *Ctx) ruleUnquote() {
 	}
 	for _, f := range fns {
 		vars := pv[f.Obj]
-		if len(vars) == 0 {
-			continue
-		}
 		pk := f.Pkg
+		// locals bound to an element of the parameter list: lex := s.lastDirectiveParameters[i]
+		isElem := func(e ast.Expr) bool {
+			ix, ok := ast.Unparen(e).(*ast.IndexExpr)
+			return ok && ldp != nil && fieldSel(pk, ix.X) == ldp
+		}
+		locals := map[types.Object]bool{}
+		ast.Inspect(f.Decl.Body, func(nd ast.Node) bool {
+			if as, ok := nd.(*ast.AssignStmt); ok && len(as.Lhs) == len(as.Rhs) {
+				for i, l := range as.Lhs {
+					if id, ok := l.(*ast.Ident); ok && isElem(as.Rhs[i]) {
+						if o := pk.TypesInfo.Defs[id]; o != nil {
+							locals[o] = true
+						}
+					}
+				}
+			}
+			return true
+		})
 		check(f, func(e ast.Expr) bool {
+			if isElem(e) {
+				return true
+			}
 			id, ok := ast.Unparen(e).(*ast.Ident)
-			return ok && vars[pk.TypesInfo.Uses[id]]
+			return ok && (vars[pk.TypesInfo.Uses[id]] || locals[pk.TypesInfo.Uses[id]])
 		})
 	}
 	if n == 0 {
